@@ -435,6 +435,8 @@ m("twin-order-model-min-on-ties", ["C18"], "silent", MATH,
   "    if a < b do\n        a\n    else do\n        b\n    end", "    if a <= b do\n        a\n    else do\n        b\n    end")
 m("twin-order-model-abs-of-zero", ["C18"], "silent", MATH,
   "    if n < 0 do\n        -n", "    if n <= 0 do\n        -n")
+m("ambient-unsafe-uninitialised-counter", ["C16"], ["AMBIENT|IRCodeGen::label|unsafe-block"], IR,
+  "    fn label(&mut self) -> Label {\n        let i = self.counter;", "    fn label(&mut self) -> Label {\n        let i = unsafe { std::ptr::read_volatile(&self.counter) };")
 m("bracket-index-no-newline-mode", ["C14"], ["BRACKET-MODE|assignable_index|LeftBracket", "NEWLINE-MODE"], PPA,
   "    let (mut ctx, skip_newlines) = ctx.push_skip_newlines(true);\n\n    let expr =", "    let (mut ctx, skip_newlines) = ctx.push_skip_newlines(ctx.skip_newlines);\n\n    let expr =")
 m("bracket-list-type-no-newline-mode", ["C14"], ["BRACKET-MODE|parse_type|LeftBracket", "NEWLINE-MODE"], PPA,
